@@ -123,9 +123,11 @@ class Prop:
                 t += op[2]
                 op[2] = t + 1
         return {"mode": mode, "foreign_sets_loop": rng.random() < 0.5, "scheduler": "plain" if mode == "loop_thread" and rng.random() < 0.6 else "threadsafe", "ops": ops,
-                "sched": th.gen_sched(rng, ks=(0, 1, 2, 3, 3), spurious_p=0.3)}
+                "sched": th.gen_sched(rng, ks=(0, 1, 2, 3, 3), spurious_p=0.3, sweep_p=0.02)}
 
     def execute(self, sc):
+        if sc["sched"].get("sweep") and "cps" not in sc:
+            return th.sweep(self.execute, sc)
         out = Outcome()
         holder = {}
 
